@@ -1542,6 +1542,16 @@ pub unsafe extern "C" fn recv(fd: i32, buf: *mut libc::c_void, len: usize, flags
     }
 }
 #[no_mangle]
+pub unsafe extern "C" fn epoll_pwait(ep: i32, ev: *mut libc::epoll_event, n: i32, to: i32, _sigmask: *const libc::sigset_t) -> i32 {
+    epoll_wait(ep, ev, n, to)
+}
+#[no_mangle]
+pub unsafe extern "C" fn epoll_pwait2(ep: i32, ev: *mut libc::epoll_event, n: i32, ts: *const libc::timespec, _sigmask: *const libc::sigset_t) -> i32 {
+    // (millisecond granularity, rounded up: nothing in the dependency tree uses this call today)
+    let to = if ts.is_null() { -1 } else { (((*ts).tv_sec.max(0) as i64).saturating_mul(1000).saturating_add(((*ts).tv_nsec.max(0) as i64 + 999_999) / 1_000_000)).min(i32::MAX as i64) as i32 };
+    epoll_wait(ep, ev, n, to)
+}
+#[no_mangle]
 pub unsafe extern "C" fn epoll_wait(ep: i32, ev: *mut libc::epoll_event, n: i32, to: i32) -> i32 {
     if !enter(true) {
         return ret(raw6(libc::SYS_epoll_wait, ep as i64, ev as i64, n as i64, to as i64, 0, 0)) as i32;
@@ -1595,6 +1605,19 @@ pub unsafe extern "C" fn poll(fds: *mut libc::pollfd, n: libc::nfds_t, to: i32) 
     if !enter(true) {
         return ret(raw6(libc::SYS_poll, fds as i64, n as i64, to as i64, 0, 0, 0)) as i32;
     }
+    poll_ns(fds, n, if to < 0 { None } else { Some(to as u64 * 1_000_000) }, to as i64)
+}
+/// The same wait with a nanosecond timeout: code that switches from poll to ppoll stays inside
+/// the simulation (a real ppoll would block the baton holder in real time).
+#[no_mangle]
+pub unsafe extern "C" fn ppoll(fds: *mut libc::pollfd, n: libc::nfds_t, ts: *const libc::timespec, sigmask: *const libc::sigset_t) -> i32 {
+    if !enter(true) {
+        return ret(raw6(libc::SYS_ppoll, fds as i64, n as i64, ts as i64, sigmask as i64, 8, 0)) as i32;
+    }
+    let to = if ts.is_null() { None } else { Some(((*ts).tv_sec.max(0) as u64).saturating_mul(1_000_000_000).saturating_add((*ts).tv_nsec.max(0) as u64)) };
+    poll_ns(fds, n, to, to.map(|t| (t / 1_000_000).min(i64::MAX as u64) as i64).unwrap_or(-1))
+}
+unsafe fn poll_ns(fds: *mut libc::pollfd, n: libc::nfds_t, to_ns: Option<u64>, to: i64) -> i32 {
     yield_point();
     let gl = g();
     let pid = gl.slots[me()].pid;
@@ -1609,7 +1632,10 @@ pub unsafe extern "C" fn poll(fds: *mut libc::pollfd, n: libc::nfds_t, to: i32) 
             }
         }
     }
-    let deadline = if to < 0 { u64::MAX } else { gl.clock_ns + to as u64 * 1_000_000 };
+    let deadline = match to_ns {
+        None => u64::MAX,
+        Some(t) => gl.clock_ns.saturating_add(t).min(u64::MAX - 1),
+    };
     loop {
         let r = raw6(libc::SYS_poll, fds as i64, n as i64, 0, 0, 0, 0);
         if r == 0 && g().clock_ns < deadline {
@@ -1628,7 +1654,7 @@ pub unsafe extern "C" fn poll(fds: *mut libc::pollfd, n: libc::nfds_t, to: i32) 
         if r == 0 {
             g().stats.p_poll_timeout += 1;
         }
-        trace(S_POLL, if n == 1 { lid_of((*fds).fd) } else { -1 }, to as i64, r);
+        trace(S_POLL, if n == 1 { lid_of((*fds).fd) } else { -1 }, to, r);
         return ret(r) as i32;
     }
 }
